@@ -16,6 +16,9 @@ CLAIMED = {
     'C03': ('retention clause (a resident key disappears only if erased, cleared, expired, or as the single victim of a full insert) on all ten containers, all methods; ' + K1, 'K2 inductive step + K1 bounded histories (CBMC)'),
     'C04': ('served => now < deadline with the symbolic clock free to sit exactly on the deadline, plus deadline upper-bound and frame clauses on writes (tlru, utlru, ut_map, ut_set); ' + K1, 'K2 inductive step with symbolic clock + K1 (CBMC)'),
     'C05': ('resident and now < deadline => served, deadline lower-bound/restart clauses on every write, update_ttl frame clause; ' + K1, 'K2 inductive step with symbolic clock + K1 (CBMC)'),
+    'C06': ('K3: for every public method (single, range, observers, clean/age/clear/update_ttl) of all ten thread_safe::yes instantiations, from any invariant state, every load and store of published container state happens inside ONE critical section of the container\'s own mutex, which is released at return; together with the sequential refinement established by the other checks this gives atomicity at the lock acquisition. Counterexamples are replayed on the real build: ThreadSanitizer two-thread driver, or a nested schedule at lock granularity (interposed pthread_mutex_lock) whose outcome no sequential order explains. The step from single-critical-section to every schedule of any number of threads is the atomicity argument, stated, not enumerated', 'K3 lock-coverage monitor over instrumented accesses (CBMC) + real-build nested-schedule / TSan replay'),
+    'C07': ('K3: every access to published container state by every public method (incl. size, empty, capacity, update_ttl) is made under the container\'s mutex or is a read of a location no call ever writes (lockset discipline => no two conflicting accesses unordered by happens-before, for any pair/set of methods and any number of threads). Counterexamples are confirmed by ThreadSanitizer on a two-thread driver of the real build', 'K3 lockset monitor over instrumented accesses (CBMC) + ThreadSanitizer replay'),
+    'C08': ('all K2 step queries and K1 histories re-run with every vstd contract assertion (singular/stale/foreign iterator, end() dereference, vector index, optional access, rehash while iterators are stored, distribution bounds) and CBMC\'s standard checks (pointer validity, bounds, overflow, shifts) enabled; counterexamples are replayed on the real build under ASan+UBSan+_GLIBCXX_DEBUG', 'K2 inductive step + K1 with std-contract and CBMC standard checks + sanitizer replay'),
     'C09': ('the allow-mode table (resident-live / expired / absent x insert / update / insert_or_update), truthful return value, rejected calls leave value and deadline untouched, on all ten containers', 'K2 inductive step + K1 (CBMC)'),
     'C10': ('victim = last of the recency order when nothing has expired, and every method maintains the recency order (lru, tlru, utlru)', 'K2 inductive step + K1 (CBMC)'),
     'C11': ('count 1 on insert, +1 per update / non-peek hit, unchanged otherwise, reported count, minimal victim (lfu; lfuda with the aged counts)', 'K2 inductive step + K1 (CBMC)'),
@@ -25,6 +28,7 @@ CLAIMED = {
     'C15': ('for every outcome of the draw exactly one prior resident is removed, never the new key, size stays at capacity (rr); injectivity of victim in the draw and reachability of every position', 'K2 inductive step with symbolic random draw + K1 (CBMC)'),
     'C16': ('a full insert with an expired resident removes an expired entry and keeps every live one (tlru, utlru incl. reconfigured TTL)', 'K2 inductive step with symbolic clock + K1 (CBMC)'),
     'C17': ('clean_expired_values(): no expired entry left, no live entry removed, return value = number removed, size = live; ut_map/ut_set: the same purge at the start of every insert/erase/lookup', 'K2 inductive step with symbolic clock + K1 (CBMC)'),
+    'C18': ('K5: two copies of the real container installed from one symbolic state vector; one receives the range call (concrete length 1-2, duplicates, overflow of the capacity, expired keys all symbolic), the other the same elements as single calls at the same instant: counts, per-element results in input order, and the complete abstract states must agree (all ten containers, four range methods)', 'K5 two-copy relational step (CBMC) + real-build twin replay'),
     'C19': ('peeks, misses, rejected inserts and absent-key erases leave the complete abstract state (values, deadlines, counts, ages, both orders) unchanged, up to dropping already-expired entries in TTL containers', 'K2 inductive step + K1 (CBMC)'),
     'C20': ('after clear(): empty abstract state, configured TTL and capacity unchanged, representation invariant holds, i.e. the abstract state of a fresh container (utlru, ut_map)', 'K2 inductive step (CBMC)'),
 }
